@@ -178,6 +178,27 @@ def extract(config, repo=None, quiet=True):
     return out
 
 
+def load_fixture(name):
+    """Facts of /verif/fixtures/<name>.cpp: a tiny translation unit with one deliberate match per
+    zero-expected rule, analysed on every run so that such a rule cannot pass because the
+    extractor or the rule went blind."""
+    ensure_tool()
+    src = os.path.join(VERIF, "fixtures", name + ".cpp")
+    key = _sha([src, os.path.join(VERIF, "tools", "adafacts.cc")])
+    d = os.path.join(VERIF, ".cache", "fixtures")
+    os.makedirs(d, exist_ok=True)
+    out = os.path.join(d, "%s_%s.json" % (name, key))
+    if not (os.path.exists(out) and os.path.getsize(out) > 100):
+        tmp = out + ".tmp%d" % os.getpid()
+        cmd = [TOOL, "--out", tmp, "--root", os.path.join(VERIF, "fixtures"), src, "--", "-std=c++20", "-O2"]
+        r = subprocess.run(cmd, capture_output=True, text=True)
+        if r.returncode != 0 or not os.path.exists(tmp):
+            raise AnalysisBroken("extractor failed on fixture %s:\n%s" % (name, (r.stderr or r.stdout)[-2000:]))
+        os.replace(tmp, out)
+    fx = Facts(out, "fixture:" + name)
+    return fx
+
+
 def extract_many(configs, repo=None):
     """Extract several configurations in parallel."""
     from concurrent.futures import ThreadPoolExecutor
